@@ -22,7 +22,7 @@ import time
 
 HERE = os.path.dirname(os.path.dirname(os.path.abspath(__file__)))
 REPO = "/repo"
-SCRATCH = "/tmp/stunmon-seed-confirm"
+SCRATCH = os.environ.get("STUNMON_SCRATCH", "/tmp/stunmon-seed-confirm")
 ENV = dict(os.environ, CARGO_NET_OFFLINE="true")
 
 
@@ -137,7 +137,8 @@ def pdetect_one(w, d, props, tier):
     sh(["git", "-C", repo_w, "checkout", "--", "."])
     sh(["rsync", "-a", "--delete", "--exclude", ".git", "--exclude", "target", "--exclude", "evidence", "--exclude", "seeded", HERE + "/", verif_w + "/"])
     ct = os.path.join(verif_w, "harness", "Cargo.toml")
-    open(ct, "w").write(open(ct).read().replace("/repo/", repo_w + "/"))
+    txt = open(ct).read().replace("/repo/", repo_w + "/")
+    open(ct, "w").write(txt)
     m = load_meta(d)
     patch = os.path.abspath(os.path.join(d, "patch.diff"))
     rc, out = sh(["git", "-C", repo_w, "apply", patch])
